@@ -294,6 +294,26 @@ def rule_frame_kind_dispatch(ctx):
            "process_inbound_frames forwards frame kind(s) %s that ReadStream::read_exact treats as unreachable" % extra, f.loc())
 
 
+def rule_cancel_safe_flush(ctx):
+    R = "C14.9"
+    ctx.rule(R, "cancel-safe flush: in WriteReusableStream::send_data the pending bytes leave the per-stream buffer (mem::replace / take) only when the frame can be handed over without waiting: between taking the buffer and the hand-over there is no await (cancellation point) and no other exit - otherwise a timed-out flush silently loses bytes the writer already accepted")
+    f = ctx.body(RS + "::WriteReusableStream::send_data")
+    T = ctx.T(f)
+    cfg = ctx.cfg(f)
+    takes = [c["bb"] for c in T.calls() if c["q"] in ("std::mem::replace", "std::mem::take", "std::mem::swap") and any(chain(a)[1][-1:] == ["buffer"] for a in T.args_of(c))]
+    hands = [c["bb"] for c in T.calls() if c["q"].rsplit("::", 1)[-1] in ("send", "try_send") and any(x[0] == "agg" and x[1].endswith("WriteCommand") for a in T.args_of(c) for x in subterms(a))]
+    ctx.floor(R, "buffer take sites in send_data", len(takes), 1)
+    ctx.floor(R, "frame hand-over sites in send_data", len(hands), 1)
+    for tb in takes:
+        nxt = [y for _, y in cfg.succ[tb]]
+        r = cfg.reach_from(nxt, avoid_blocks=frozenset(hands))
+        susp = sorted(b for b in r if f.blocks[b]["t"]["k"] == "yield")
+        rets = sorted(set(cfg.returns()) & r)
+        ok = not susp and not rets
+        ctx.ob(R, "no suspension or exit between take and hand-over", ok, "after the buffer is taken the frame is handed to the writer without an await or early return" if ok else
+               "after the pending bytes were taken out of the buffer send_data can %s before the frame is handed over: a cancelled/timed-out flush drops bytes that write_all already accepted" % ("suspend (await)" if susp else "return"), f.loc())
+
+
 def rule_drop_order(ctx):
     R = "C14.5"
     ctx.rule(R, "drop order: in Frame, `data` is declared before `_permit` (the buffer is freed before its permits are returned)")
@@ -412,5 +432,5 @@ def rule_casts(ctx):
     ctx.floor(R, "narrowing casts inventoried", sum(len(v) for v in found.values()), 4)
 
 
-RULES = [("C14.1", rule_permit_before_buffer), ("C14.2", rule_config), ("C14.3", rule_stream_ids), ("C14.4", rule_frame_kind_dispatch), ("C14.5", rule_drop_order), ("C14.6", rule_one_transient),
+RULES = [("C14.1", rule_permit_before_buffer), ("C14.2", rule_config), ("C14.3", rule_stream_ids), ("C14.4", rule_frame_kind_dispatch), ("C14.5", rule_drop_order), ("C14.9", rule_cancel_safe_flush), ("C14.6", rule_one_transient),
          ("C14.7", rule_reader), ("C14.8", rule_casts)]
